@@ -14,7 +14,7 @@ use serde_json::json;
 pub const KINDS: [Kind; 6] = [Kind::Ema, Kind::Tr, Kind::Atr, Kind::Macd, Kind::Kc, Kind::Ce];
 pub const MULTS: [f64; 6] = [0.0, 0.5, 2.0, 3.0, 1e3, -1.0];
 
-pub const RULE: &str = "Seeded scalar streams (any sign, RAND and band REGIME families) and valid OHLCV bar streams (6 styles + tiled AMZN) for EMA/TR/ATR/MACD/KC/CE with periods incl. 1, equal and inverted fast/slow, up to 1024, multipliers {0,0.5,2,3,1e3,-1}, incl. scalar streams of magnitude 1e100..1e150, 1e-150..1e-100 and one-signed streams in [6.5e307, 8.5e307] (just below overflow; multipliers <= 3 there); every output component judged at every step against a double-double evaluation of the documented recursion over the whole history; plus long runs of 1.1*10^6 (quick) / 2.2*10^6 (thorough) inputs judged on the first 3000 steps, every 997th and the last; plus every bar/scalar sequence up to a depth bound over a small alphabet for periods 1..=4 (exhaustive). Non-trivial: stream longer than every period with >= 2 distinct inputs; distinct by hash of (indicator, params, stream head) or by construction (enumeration).";
+pub const RULE: &str = "Seeded scalar streams (any sign, RAND and band REGIME families) and OHLCV bar streams (6 styles + tiled AMZN; a quarter negated, a fifth with crossed bars high < low) for EMA/TR/ATR/MACD/KC/CE with periods incl. 1, equal and inverted fast/slow, up to 1024, multipliers {0,0.5,2,3,1e3,-1}, incl. scalar streams of magnitude 1e100..1e150, 1e-150..1e-100 and one-signed streams in [6.5e307, 8.5e307] (just below overflow; multipliers <= 3 there); every output component judged at every step against a double-double evaluation of the documented recursion over the whole history; plus long runs of 1.1*10^6 (quick) / 2.2*10^6 (thorough) inputs judged on the first 3000 steps, every 997th and the last; plus every bar/scalar sequence up to a depth bound over a small alphabet for periods 1..=4 (exhaustive). Non-trivial: stream longer than every period with >= 2 distinct inputs; distinct by hash of (indicator, params, stream head) or by construction (enumeration).";
 
 fn judge(p: &Params, out: &Out, r: &RefOut, js: &mut Judgements) -> usize {
     ema_family_judgements(p, out, r, js);
@@ -22,6 +22,10 @@ fn judge(p: &Params, out: &Out, r: &RefOut, js: &mut Judgements) -> usize {
 }
 
 fn params_for(kind: Kind, rng: &mut Rng, maxp: usize) -> Params {
+    // one draw in twelve is the documented default configuration (which the wrapper builds through Default::default())
+    if rng.below(12) == 0 {
+        return kind.default_params();
+    }
     let per = |rng: &mut Rng| match rng.below(8) {
         0 => 1,
         1 => 2,
@@ -169,6 +173,15 @@ fn run_bars(ctx: &Ctx) -> Report {
         if idx % 4 == 3 {
             rep.count("bar.streams_with_negative_prices");
         }
+        // The formulas are stated for any bar: the statement puts no low <= high premise on TrueRange (C09
+        // does, for its sign claim). A fifth of the bar streams carry crossed bars (high < low, as a feed with
+        // swapped columns or a bad tick produces) through a user bar type.
+        let bars: Vec<Bar> = if idx % 5 == 2 {
+            rep.count("bar.streams_with_crossed_bars");
+            bars.iter().enumerate().map(|(i, b)| if i % 8 == 3 || (i % 64 > 40 && i % 64 < 46) { Bar { h: b.l, l: b.h, ..*b } } else { *b }).collect()
+        } else {
+            bars
+        };
         let inputs: Vec<In> = bars.iter().map(|b| In::B(*b)).collect();
         // TR arm coverage
         let mut pc = None;
@@ -200,6 +213,7 @@ fn bar_alphabet() -> Vec<In> {
         (20.0, 21.0, 19.0, 20.5, 1.0),  // gap up
         (5.0, 6.0, 4.0, 4.0, 3.0),      // gap down, close at low
         (10.0, 12.0, 8.0, 9.5, 0.0),    // exact repeat of #1 (equal neighbours)
+        (8.5, 8.0, 9.0, 8.4, 1.0),      // crossed: high < low
     ]
     .iter()
     .map(|&(o, h, l, c, v)| In::B(Bar { o, h, l, c, v }))
@@ -332,7 +346,7 @@ pub fn run(ctx: &Ctx) -> Report {
         rep.merge(run_enum(ctx));
     }
     if ctx.only.is_none() {
-        for key in ["tr.first_bar", "tr.arm.high_minus_low", "tr.arm.high_vs_prev_close", "tr.arm.low_vs_prev_close", "macd.fast_eq_slow", "macd.fast_gt_slow", "period_1.alpha_is_1", "period_ge_512", "scalar.streams_near_f64_max", "enum.bar_sequences", "enum.scalar_sequences", "soak.long_streams"] {
+        for key in ["tr.first_bar", "tr.arm.high_minus_low", "tr.arm.high_vs_prev_close", "tr.arm.low_vs_prev_close", "macd.fast_eq_slow", "macd.fast_gt_slow", "period_1.alpha_is_1", "period_ge_512", "bar.streams_with_crossed_bars", "scalar.streams_near_f64_max", "enum.bar_sequences", "enum.scalar_sequences", "soak.long_streams"] {
             if rep.counters.get(key).copied().unwrap_or(0) == 0 {
                 rep.inconclusive.push(format!("coverage floor missed: {} = 0", key));
             }
